@@ -307,8 +307,11 @@ Definition chk_ids_unwritten (o : opk) (lk : lay) (fl : flags) : bool :=
 Definition chk_arg_untouched (o : opk) (lk : lay) (fl : flags) : bool :=
   forallb (fun l => negb (tbl_eqb (fst l) Arg)) (written (eff o lk fl)) &&
   forallb (fun l => negb (tbl_eqb (fst l) Arg)) (assigned (eff o lk fl)).
-(* every Share chain ends within FUEL steps (so [roots] really returns roots) *)
+(* every Share chain that matters (from a component of the result, from the target of a Write) ends
+   within FUEL steps, so [roots] really returns roots there *)
+Definition write_targets (effs : list effect) : list loc :=
+  flat_map (fun e => match e with Write l => [l] | _ => [] end) effs.
 Definition chk_resolved (o : opk) (lk : lay) (fl : flags) : bool :=
-  forallb (fun t => forallb (fun c =>
-     forallb (fun r => match sources (eff o lk fl) r with [] => true | _ => false end) (roots FUEL (eff o lk fl) (t, c)))
-     all_comps) [Recv; Arg; Copy; Work; Work2; Mid; Res].
+  let effs := eff o lk fl in
+  forallb (fun l => forallb (fun r => match sources effs r with [] => true | _ => false end) (roots FUEL effs l))
+          (map (fun c => (Res, c)) all_comps ++ write_targets effs).
